@@ -441,6 +441,16 @@ class FuncAnalysis:
             if f == fn and (h is None or h == head) and \
                     (k is None or kind.startswith(k)):
                 return True
+            # ("*", attr, kind): a store to the attribute named `attr`
+            # wherever it occurs (e.g. the recursion-guard flag __error__)
+            if f == "*" and isinstance(node, ast.Assign) and any(
+                    isinstance(t, ast.Attribute) and t.attr == h
+                    for t in node.targets) and \
+                    (k is None or kind.startswith(k)):
+                return True
+            if f == "*" and isinstance(node, ast.Attribute) and \
+                    node.attr == h and (k is None or kind.startswith(k)):
+                return True
         return False
 
     NONREF_CONTAINERS = {"_data", "_datatype", "_records", "_line_queue",
